@@ -193,7 +193,15 @@ def r3_merge_and_removal(rep, ctx):
     accs = [a_ for a_ in accumulations(m, fn, res) if entry_path(a_["added"]) == (MAP1, (1, 1)) and entry_path(a_["key"]) == (MAP1, (1, 0)) and not a_["conditional"]]
     zs = [z for z in (zero_cmp(x) for x in tests) if z is not None]
     own_zero = any(entry_path(z) == (MAP1, (1, 1)) for z in zs)
-    total_zero = any(z[0] == "sub" and entry_path(z[2]) == (MAP1, (1, 0)) for z in zs)
+    def total_read(z):
+        """totals[unit] / totals.get(unit, 0): the key read"""
+        if z[0] == "sub":
+            return z[2]
+        if z[0] == "call" and z[1][0] == "attr" and z[1][2] == "get" and len(z[2]) == 2 and z[2][1] == ("const", 0) and not z[3]:
+            return z[2][0]
+        return None
+
+    total_zero = any(total_read(z) is not None and entry_path(total_read(z)) == (MAP1, (1, 0)) for z in zs)
     rep.check(own_zero and total_zero, "C04.R3", "removal:test", "a category is dropped when its own exponent is 0 or the total exponent of its unit is 0",
               "the removal test `%s` does not cover %s" % (ast.unparse(cond), "'own exponent is 0'" if not own_zero else "'per-unit total is 0'"), node=d, fn=fn)
     create = [c for c in own_nodes(fn.node) if isinstance(c, ast.Call) and isinstance(c.func, ast.Attribute) and c.func.attr in ("CreateDerived", "_CreateDerived")]
